@@ -180,6 +180,16 @@ func (eval Evaluator) MultiplyByDiagMatrix(ctIn *rlwe.Ciphertext, matrix LinearT
 		keys = keys[1:]
 	}
 
+	// The first rotation initialises the accumulators: without any non-zero
+	// diagonal they have to be cleared, or the result depends on what the
+	// receiver and the buffer held before.
+	if len(keys) == 0 {
+		c0OutQP.Q.Zero()
+		c1OutQP.Q.Zero()
+		c0OutQP.P.Zero()
+		c1OutQP.P.Zero()
+	}
+
 	for i, k := range keys {
 
 		k &= (slots - 1)
